@@ -906,6 +906,8 @@ proof fn lemma_shard_capacities_add_up_to_total(total: nat, shards: nat)
     assert(total % shards < shards) by (nonlinear_arith) requires shards > 0;
     assert(total == shards * (total / shards) + total % shards) by (nonlinear_arith) requires shards > 0;
 }
+pub struct CapT { }
+impl CapT {
 //@fn foyer-memory/src/raw.rs :: impl~^impl<E, S, I> RawCache<E, S, I> where/fn shard_capacity_for ret=r
 //@spec
     requires shards > 0,
@@ -913,6 +915,37 @@ proof fn lemma_shard_capacities_add_up_to_total(total: nat, shards: nat)
 //@before /base \+ usize::from/
         proof { assert(remainder > 0 ==> base < usize::MAX) by (nonlinear_arith) requires shards > 0, base == total / shards, remainder == total % shards, total <= usize::MAX; }
 //@end
+
+// ---- the per-shard capacities computed by RawCache::new and RawCache::resize: share i for shard i, summing to the total
+//@region foyer-memory/src/raw.rs :: impl~^impl<E, S, I> RawCache<E, S, I> where/fn resize name=resize_capacities start=/let shard_capacities = / stmts=1 rules=range-map-collect
+//@head
+    fn resize_capacities(capacity: usize, shards: usize) -> (r: Vec<usize>)
+        requires shards > 0,
+        ensures
+            r@.len() == shards, // @label one_capacity_per_shard
+            forall|i: int| 0 <= i < shards ==> (#[trigger] r@[i]) == share(capacity as nat, shards as nat, i as nat), // @label resize_gives_every_shard_its_share_including_the_remainder
+//@loop 1 optional
+            invariant verif_i <= shards, shards > 0, shard_capacities@.len() == verif_i,
+                forall|i: int| 0 <= i < verif_i ==> (#[trigger] shard_capacities@[i]) == share(capacity as nat, shards as nat, i as nat),
+            decreases shards - verif_i,
+//@tail
+        shard_capacities
+//@end
+//@region foyer-memory/src/raw.rs :: impl~^impl<E, S, I> RawCache<E, S, I> where/fn new name=new_capacities start=/let shard_capacities = / stmts=1 rules=range-map-collect sub=@config\.shards@shards@ sub=@config\.capacity@capacity@
+//@head
+    fn new_capacities(capacity: usize, shards: usize) -> (r: Vec<usize>)
+        requires shards > 0,
+        ensures
+            r@.len() == shards, // @label one_capacity_per_shard
+            forall|i: int| 0 <= i < shards ==> (#[trigger] r@[i]) == share(capacity as nat, shards as nat, i as nat), // @label construction_gives_every_shard_its_share_including_the_remainder
+//@loop 1 optional
+            invariant verif_i <= shards, shards > 0, shard_capacities@.len() == verif_i,
+                forall|i: int| 0 <= i < verif_i ==> (#[trigger] shard_capacities@[i]) == share(capacity as nat, shards as nat, i as nat),
+            decreases shards - verif_i,
+//@tail
+        shard_capacities
+//@end
+}
 
 // ---- RawCacheEntry::is_outdated (C18): true exactly when the shard index no longer holds this record
 // (`is_in_indexer` flag <=> index membership: rule flag-as-membership, wrapper supplies the shard's index)
